@@ -5,7 +5,7 @@ LEVEL = "proof"
 
 
 def run(chk):
-    build, oracle, tables = emucheck.setup(chk, extra_units=("prv", "chan", "mux", "emuloop", "pv", "connect"))
+    build, oracle, tables = emucheck.setup(chk, extra_units=("prv", "chan", "mux", "emuloop", "pv", "connect", "bayc", "muxc"))
     chk.assumptions = ["distinct clocks per event", "task, mark and breakdown channels are exercised by C07, C17 and C20"]
     rng = chk.rng
     allm = [m["name"] for m in tables["models"] if m["name"] != "ovni"]
@@ -44,6 +44,13 @@ def check_bay_layer(chk, build):
         "model_thread.c, model_cpu.c, model_pvt.c connect functions translated to Gallina on every run; hand-written prelude "
         "coq/Emu/ConnectPre.v (bay under construction + heap; chan_init/bay_register/mux_init/mux_set_input/prv_register with the "
         "meaning of BayDefs) and driver ConnectProofs.connect_all (the calling loops of system.c/model.c, the mux_set_default tail)")
+    chk.trusted_base.append(
+        "translate/units/bayc.py + muxc.py + _stagec.py: bay.c (bay_register, bay_find, bay_add_cb, bay_enable_cb, bay_disable_cb, "
+        "cb_chan_is_dirty, bay_init, propagate_chan, bay_propagate; every DL_FOREACH rendered as the live walk, a body that deletes "
+        "from a list is refused) and mux.c (mux_init, mux_get_input, mux_set_input, mux_add_reselect, mux_set_default) translated to "
+        "Gallina on every run; hand-written preludes coq/Emu/BayCPre.v (pointers into a BayDefs bay: channel names = bay ids, callback "
+        "objects = positions in the callback lists, calling a callback pointer = BayDefs.run_dcb / emit, chan_flush) and "
+        "coq/Emu/MuxInitPre.v (struct mux under construction; bay_add_cb / bay_find / chan_prop_set with the meaning proved of bay.c)")
     try:
         bad = baycheck.check_bay(chk, build, chk.budget(3000, 60000))
     except Exception as e:                      # harness or extraction does not build: the tie is broken, not the property
